@@ -396,6 +396,9 @@ func (r *Run) Backfill(h, ci int, from uint64, keysOnly bool) {
 	c09 := []string{"C09"}
 	col, err := w.startFeed(FeedCfg{H: h, C: ci, KeysOnly: keysOnly}, from, true, "")
 	tr := StepTrace{Op: Op{K: "Backfill", H: h, C: ci, Arg: map[string]any{"from": from, "keysOnly": keysOnly}}, Outcome: "snapshot"}
+	if r.curOp.K == "Backfill" {
+		tr.Op = r.curOp
+	}
 	defer func() { r.Trace = append(r.Trace, tr) }()
 	if err != nil {
 		r.dev("backfill.start", c09, "StartDCPFeed(dump from %#x) failed: %v", from, err)
